@@ -8,8 +8,8 @@ git -C /repo worktree add -q --detach "$W" HEAD || exit 3
 trap 'git -C /repo worktree remove --force "$W" >/dev/null 2>&1' EXIT
 if ! git -C "$W" apply "$diff"; then echo "PATCH-DOES-NOT-APPLY"; exit 3; fi
 cd /verif
-VERIF_REPO="$W" timeout ${EVAL_TIMEOUT:-1800} ./check "$id" "$tier" ${EVAL_ARGS:-} > /tmp/evalmut-$$.log 2>&1
+VERIF_EVIDENCE_DIR=/tmp/evalmut-ev-$$ VERIF_REPLAY_DIR=/tmp/evalmut-rp-$$ VERIF_REPO="$W" timeout ${EVAL_TIMEOUT:-1800} ./check "$id" "$tier" ${EVAL_ARGS:-} > /tmp/evalmut-$$.log 2>&1
 rc=$?
 grep -E "^VIOLATION|^KNOWN-FINDING|^OK |CHECK-BROKEN|^  - |^  harness=" /tmp/evalmut-$$.log | cut -c1-260 | head -20
 echo "EXIT=$rc"
-rm -f /tmp/evalmut-$$.log
+rm -rf /tmp/evalmut-$$.log /tmp/evalmut-ev-$$ /tmp/evalmut-rp-$$
